@@ -206,6 +206,76 @@ func c19Body(r *simcore.Run) {
 	if r.Sched.MaxSameName("indexer") > 1 {
 		return // index restarted by compaction while indexing (C04 finding)
 	}
+	// replacing by a query that matches several documents: every matched document gets
+	// the new content and keeps its own identity
+	{
+		bfields := []*protomodel.Field{{Name: "n", Type: protomodel.FieldType_DOUBLE}, {Name: "s", Type: protomodel.FieldType_STRING}}
+		must(eng.CreateCollection(ctx, "admin", "bulk", "_id", bfields, []*protomodel.Index{{Fields: []string{"s"}}}), "CreateCollection(bulk)")
+		type bdoc struct {
+			n    float64
+			s    string
+			revs uint64
+		}
+		bulk := map[string]*bdoc{}
+		for i := 0; i < 3+r.Intn(4); i++ {
+			d := &bdoc{n: float64(i), s: []string{"a", "b"}[r.Intn(2)], revs: 1}
+			_, id, err := eng.InsertDocument(ctx, "admin", "bulk", &structpb.Struct{Fields: map[string]*structpb.Value{"n": structpb.NewNumberValue(d.n), "s": structpb.NewStringValue(d.s)}})
+			if err != nil {
+				r.Violation("insert", "", "InsertDocument(bulk) failed: %v", err)
+			}
+			bulk[id.EncodeToHexString()] = d
+		}
+		for j := 0; j < 1+r.Intn(3); j++ {
+			from, to, nn := []string{"a", "b"}[r.Intn(2)], []string{"a", "b", "c"}[r.Intn(3)], float64(100+j)
+			q := &protomodel.Query{CollectionName: "bulk", Expressions: []*protomodel.QueryExpression{{FieldComparisons: []*protomodel.FieldComparison{{Field: "s", Operator: protomodel.ComparisonOperator_EQ, Value: structpb.NewStringValue(from)}}}}}
+			revs, err := eng.ReplaceDocuments(ctx, "admin", q, &structpb.Struct{Fields: map[string]*structpb.Value{"n": structpb.NewNumberValue(nn), "s": structpb.NewStringValue(to)}})
+			if err != nil {
+				r.Violation("replace", "", "ReplaceDocuments(bulk, s == %q) failed: %v", from, err)
+			}
+			var want, got []string
+			for id, d := range bulk {
+				if d.s == from {
+					want = append(want, id)
+					d.n, d.s, d.revs = nn, to, d.revs+1
+				}
+			}
+			for _, rv := range revs {
+				got = append(got, rv.DocumentId)
+			}
+			sort.Strings(want)
+			sort.Strings(got)
+			r.Logf("bulk replace s==%s -> s=%s n=%v: %d documents", from, to, nn, len(want))
+			if fmt.Sprint(want) != fmt.Sprint(got) {
+				r.Violation("replace-many", "", "ReplaceDocuments(bulk, s == %q) reports the documents %v, the documents matching the query are %v", from, got, want)
+			}
+		}
+		rd, err := eng.GetDocuments(ctx, &protomodel.Query{CollectionName: "bulk"}, 0)
+		if err != nil {
+			r.Violation("search-error", "", "GetDocuments(bulk) failed: %v", err)
+		}
+		seen := 0
+		for {
+			d, err := rd.Read(ctx)
+			if errors.Is(err, document.ErrNoMoreDocuments) {
+				break
+			}
+			if err != nil {
+				r.Violation("search-error", "", "reading bulk failed: %v", err)
+			}
+			f := d.Document.Fields
+			id := f["_id"].GetStringValue()
+			m := bulk[id]
+			if m == nil || f["n"].GetNumberValue() != m.n || f["s"].GetStringValue() != m.s {
+				rd.Close()
+				r.Violation("replace-many", "", "after replacing by query, document %s of bulk is %v, expected %+v", id, d.Document, m)
+			}
+			seen++
+		}
+		rd.Close()
+		if seen != len(bulk) {
+			r.Violation("replace-many", "", "bulk holds %d documents after replacing by query, expected %d", seen, len(bulk))
+		}
+	}
 	verify := func(what string) int {
 		n := 0
 		render := func(coll string, q *protomodel.Query) ([]string, error) {
